@@ -132,8 +132,8 @@ def plan(tier, seed):
             ss = list(SETTINGS)
         for sn in ss:
             for n in range(0, maxn + 1):
-                if tier == 'quick' and name == 'meta' and n == 3:
-                    continue        # int()/float() realise every digit: length 3 is left to the thorough tier
+                if tier == 'quick' and n == 3 and (name == 'meta' or (name == 'directives_case') or (name == 'name_keyword' and sn == 'ignorecase')):
+                    continue        # int()/float() realise every digit; case folding on symbolic text costs ~1 s per path: length 3 is left to the thorough tier        # int()/float() realise every digit: length 3 is left to the thorough tier
                 spec = {'grammar': name, 'gtext': g, 'n': n, 'settings': SETTINGS[sn], 'gen': True,
                         'warm': ['', 'a', 'ab', 'aB', 'a b', 'abc', 'a-a', 'if', 'x', 'a,b', 'a;', 'b;', '1', '-1', 'xyw', 'xyz', 'xy', 'ac', 'abc', 'x y', 'a 1', 'true', 'ba', 'bab', 'a\nb', 'a#b', 'aAB', 'a(*', 'ab ', 'abab']}
                 # @int/@uint/@float call int()/float() on the matched text, which realises each digit: restrict this grammar to ASCII
